@@ -428,6 +428,7 @@ def authz_change_cases():
             after = [step("auth", w, cmd, claim=1 if (i + w) % 4 == 0 else 0, **kw) for i, (cmd, kw) in enumerate(half) for w in senders]
             world = copy.deepcopy(WORLD)
             world["mappings"][2]["proto"] = "tcp"   # one SOCKS mapping per index: the as-found default target walks a Go map
+            world["codes"][2]["act"] = 0            # no second mapping (1 -> 2) that would still justify reaching client 2
             cases.append(dict(world, mode="case", aux=True, tag="authz:" + name,
                               steps=copy.deepcopy(before) + copy.deepcopy(evs) + after + [step("auth", 1, MAP_DEL, obj=0), step("auth", 3, MAP_DEL, obj=0)]))
     return cases
